@@ -45,7 +45,10 @@ BEGIN = {"scenario_managers": ["smA"], "scenarios": ["base"], "equations": ["sto
 def gen_timeout(rng):
     units = list(UNIT_US)
     r = rng.random()
-    if r < 0.04:
+    if r < 0.02:
+        # a deadline beyond anything a calendar can express (the server accepts it): such an instance simply never comes due
+        return rng.choice([{"weeks": 600000}, {"days": 4000000}, {"weeks": 500000, "hours": 3}])
+    if r < 0.06:
         # no time at all: the instance is due at the first sweep after its creation (it never has to be served, and it has to be gone then)
         return rng.choice([{"seconds": 0}, {}, {u: 0 for u in units}])
     if r < 0.6:
@@ -127,6 +130,8 @@ def generate(spec):
         # aim the gap at one instance's boundary
         j = rng.randrange(len(insts))
         T = insts[j]
+        if T > 3 * 10**14:
+            T = rng.choice([10**6, 3600 * 10**6, 400 * 86400 * 10**6])      # (a deadline millennia away is not aimed at: the clock stays within a few years)
         target = rng.choice([T - band, T, T + band, 2 * T, T // 2, 0, band, T + 3 * band, T - 3 * band, 3 * T + 7]
                             + ([T - cost // 2, T - cost + band, T - band] if cost else []))
         gap = last[j] + target - now
